@@ -59,6 +59,53 @@ def gen_base(rng, nf):
     return bk, dyadic(rng, 0, 2, 2, size=nf)
 
 
+def gen_signal_domain(rng, fdom):
+    """the grid the spectra (sources, mixed spectra, backgrounds) were measured on, handed over with `domain=`: a spectrometer's
+    own ascending grid that is finer or coarser than the filters' grid, shifted against it, wider or narrower than it, made of
+    whole numbers, or the very same grid given explicitly. Dyadic values. The grids overlap by at least two mean steps of the
+    coarser one (otherwise the library refuses to equalise them, which is not what is examined here)."""
+    lo, hi = float(fdom[0]), float(fdom[-1])
+    fstep = (hi - lo) / (len(fdom) - 1)
+    for _ in range(30):
+        kind = str(rng.choice(["finer", "coarser", "similar", "whole", "equal"], p=[0.3, 0.2, 0.25, 0.15, 0.1]))
+        if kind == "equal":
+            return kind, fdom.copy()
+        nds = int(rng.integers(8, 41)) if kind == "finer" else int(rng.integers(3, 17))
+        if kind == "whole":
+            steps = rng.integers(1, 4, size=nds - 1).astype(float)
+            start = float(np.floor(lo)) + float(rng.integers(-3, 4))
+        else:
+            f = dict(finer=0.25, coarser=2.0, similar=1.0)[kind]
+            steps = dyadic(rng, 0.5, 1.5, 3, size=nds - 1) * f * 2.0 ** np.round(np.log2(fstep))
+            start = lo + float(dyadic(rng, -2, 2, 3)) * 2.0 ** np.round(np.log2(fstep))
+        sdom = np.concatenate([[start], start + np.cumsum(steps)])
+        lemin, lemax = max(lo, sdom[0]), min(hi, sdom[-1])
+        lediff = max(fstep, float(np.mean(np.diff(sdom))))
+        if lemax - lemin >= 2 * lediff and not np.array_equal(sdom, fdom):
+            return kind, sdom
+    return "equal", fdom.copy()
+
+
+def resample_exact(dom, arr, grid):
+    """piecewise-linear interpolation of the rows of `arr` (given on the ascending grid `dom`) at the points of `grid`, zero
+    outside [dom[0], dom[-1]] -- what 'equalising the domains' of filters and signals means -- evaluated in exact rationals"""
+    dom = [F(v) for v in dom]
+    out = []
+    for row in np.atleast_2d(arr):
+        y = [F(v) for v in row]
+        r = []
+        for g in grid:
+            g = F(g)
+            if g < dom[0] or g > dom[-1]:
+                r.append(F(0)); continue
+            i = 0
+            while i + 2 < len(dom) and dom[i + 1] < g:
+                i += 1
+            r.append(y[i] + (y[i + 1] - y[i]) * (g - dom[i]) / (dom[i + 1] - dom[i]))
+        out.append(r)
+    return out
+
+
 def K_text(K):
     K = np.atleast_1d(K)
     return ("vec " + vs(K)) if K.ndim == 1 else ("mat " + ms(K))
@@ -80,7 +127,14 @@ def run(R):
               "over 3-7 point or 20-60 point grids, array and scalar-step domains: the whole batch of system_capture / "
               "capture(X @ sources) / both relative captures is compared in floating point with A x and K(A x + baseline) from the exact "
               "model's A and route against route, four sampled rows (first, last, two random) with the exact model, and the sampled "
-              "spectra once more as a small batch afterwards. Non-trivial: >=2 "
+              "spectra once more as a small batch afterwards. Spectra measured on their own grid (cases D*): sources, mixed spectra and the "
+              "adapting background are handed over with `domain=grid` (register_system / capture / relative_capture / "
+              "register_background_adaptation), the grid finer or coarser than the filters', shifted, wider or narrower, whole-numbered (also "
+              "integer dtype / list / strided), the filters' own grid given explicitly, or the same scalar step given explicitly: predicate on the "
+              "implementation's answers (system_capture(x) = capture(sum_k x_k source_k, domain=grid), A = capture of the single sources, both "
+              "relative captures = K(Q+baseline), relative capture of the adapting background = 1) and correspondence of A, captures, relative "
+              "captures and adapted K with the exact model integrating the exactly (rational, piecewise-linear, zero outside the measured range) "
+              "resampled filters and spectra over the common grid reported by the estimator. Non-trivial: >=2 "
               "sources, K not scalar or baseline non-zero, distinct rows.")
     RT = 1e-10
     todo = []
@@ -222,7 +276,101 @@ def run(R):
         R.driver.ask("La%d" % kb, "systemA", dt, ms(filt), ms(src))
         R.driver.ask("Lm%d" % kb, "capture", dt, ms(filt), ms(mix[rows]))
         big.append((c, st, out, X, kb))
+    # ---- spectra measured on their own grid (`domain=` of the signals) ---------------------------------------------------
+    # "scalar-step and array domains": the sources, the mixed spectra and the adapting background come from a spectrometer with
+    # its own grid and are handed over with `domain=grid` (register_system / capture / relative_capture /
+    # register_background_adaptation); the library brings filters and signals onto a common grid. The property's clauses are
+    # judged on the implementation's answers alone (intensity route against spectrum route, K(Q+baseline), adaptation -> 1);
+    # the correspondence compares A and the captures with the exact model integrating the exactly resampled (piecewise-linear,
+    # zero outside the measured range) filters and spectra over the common grid the estimator reports (`sources_domain`).
+    nsd = 40 if R.tier == "quick" else 800
+    sdcases = []
+    for kd in range(nsd):
+        kname = "D%d" % kd
+        if not R.want(kname):
+            continue
+        rng = R.rng(3, kd)
+        explicit_step = bool(rng.integers(10) == 0)
+        nf, ns, nd, dom, dkind, filt, src = gen_system(rng, dkind=("step" if explicit_step else "array"))
+        filt = filt + 0.0625        # strictly positive filters: the adapting background excites every receptor on any common range
+        if explicit_step:
+            skind, sdom = "step-explicit", dom
+        else:
+            skind, sdom = gen_signal_domain(rng, dom)
+            src = dyadic(rng, 0, 2, 4, size=(ns, len(sdom)))
+            src[np.arange(ns), rng.integers(0, len(sdom), size=ns)] += 0.5
+        nds = nd if explicit_step else len(sdom)
+        kk, K = gen_K(rng, nf)
+        bk, base = gen_base(rng, nf)
+        nx = int(rng.integers(1, 4))
+        whole = bool(rng.integers(4) == 0)
+        X = dyadic(rng, 0, 3, 0 if whole else 3, size=(nx, ns))
+        bgspec = dyadic(rng, 0.125, 2, 3, size=nds)
+        add_baseline = bool(rng.integers(4) > 0)
+        c = dict(k=kname, nf=nf, ns=ns, nd=nd, domain_kind=dkind, dom=dom, signal_domain_kind=skind, signal_domain=sdom, K_kind=str(kk), K=K,
+                 baseline_kind=str(bk), baseline=base, filters=filt, sources=src, X=X, bg_spec=bgspec, add_baseline=add_baseline)
+        R.count("signal-domain:%s" % skind)
+        for key in ("K_kind", "baseline_kind"):
+            R.count("signal-domain:%s:%s" % (key, c[key]))
+        if not explicit_step:
+            fs, ss = (dom[-1] - dom[0]) / (nd - 1), (sdom[-1] - sdom[0]) / (nds - 1)
+            R.count("signal-domain:mean step %s the filters'" % ("<" if ss < fs else (">" if ss > fs else "=")))
+            R.count("signal-domain:range %s" % ("covers the filters'" if (sdom[0] <= dom[0] and sdom[-1] >= dom[-1]) else
+                                                 ("within the filters'" if (sdom[0] >= dom[0] and sdom[-1] <= dom[-1]) else "overlaps the filters' partly")))
+        mix = X @ src       # exact: dyadic data, at most 8 terms
+        g = dict(filt=as_given(rng, filt.copy(), R, "filters"), src=as_given(rng, src.copy(), R, "sources"),
+                 X=as_given(rng, X.copy(), R, "X"), mix=as_given(rng, mix.copy(), R, "mix"), bgspec=as_given(rng, bgspec.copy(), R, "bg_spec"),
+                 dom=(dom if np.isscalar(dom) else as_given(rng, dom.copy(), R, "domain", kinds=("same", "list", "strided"))),
+                 sdom=(sdom if np.isscalar(sdom) else as_given(rng, sdom.copy(), R, "signal-domain", kinds=("same", "int", "list", "strided"))),
+                 K=(K if np.isscalar(K) else as_given(rng, K.copy(), R, "K")),
+                 base=(base if np.isscalar(base) else as_given(rng, base.copy(), R, "baseline")))
+        st, out = "ok", {}
+        stc, est = call(dreye.ReceptorEstimator, g["filt"], domain=g["dom"], K=g["K"], baseline=g["base"])
+        if stc != "ok":
+            st, out = stc, est
+        else:
+            stc, v = call(est.register_system, g["src"], domain=g["sdom"])
+            if stc != "ok":
+                st, out = stc, "register_system(sources, domain=grid): %s" % v
+        if st == "ok":
+            out["A"] = np.array(est.A, dtype=float)
+            out["grid"] = est.sources_domain if np.isscalar(est.sources_domain) else np.array(est.sources_domain, dtype=float)
+            steps = [("sc", est.system_capture, (g["X"],), {}), ("src", est.system_relative_capture, (g["X"],), {}),
+                     ("cap_mix", est.capture, (g["mix"],), dict(domain=g["sdom"])),
+                     ("relcap_mix", est.relative_capture, (g["mix"],), dict(domain=g["sdom"])),
+                     ("cap_single", est.capture, (g["src"],), dict(domain=g["sdom"])),
+                     ("adapt", est.register_background_adaptation, (g["bgspec"],), dict(domain=g["sdom"], add_baseline=add_baseline)),
+                     ("q_bg", est.capture, (g["bgspec"],), dict(domain=g["sdom"])),
+                     ("rel_bg", est.relative_capture, (bgspec[None].copy(),), dict(domain=g["sdom"]))]
+            for name, f, a_, kw_ in steps:
+                stc, v = call(f, *a_, **kw_)
+                if stc != "ok":
+                    st, out = stc, "%s: %s" % (name, v)
+                    break
+                if name == "adapt":
+                    out["K_bg"] = np.array(est.K, dtype=float)
+                else:
+                    out[name] = np.asarray(v, dtype=float)
+        if st == "ok":
+            G = out["grid"]
+            if np.isscalar(G):
+                Fi, Si, Mi, Bi = filt, src, mix, [bgspec]
+            else:
+                Fi = resample_exact(dom, filt, G); Si = resample_exact(sdom, src, G)
+                Mi = resample_exact(sdom, mix, G); Bi = resample_exact(sdom, bgspec, G)
+                R.count("signal-domain:common grid %s" % ("= the filters' grid" if np.array_equal(G, dom) else ("= the signals' grid" if np.array_equal(G, sdom) else "new")))
+            dt = dom_text(G if np.isscalar(G) else list(G), True)
+            R.driver.ask("Da%d" % kd, "systemA", dt, ms(Fi), ms(Si))
+            R.driver.ask("Dm%d" % kd, "capture", dt, ms(Fi), ms(Mi))
+            R.driver.ask("Db%d" % kd, "capture", dt, ms(Fi), ms(Bi))
+        sdcases.append((c, st, out, kd))
     R.driver.run()
+    for c, st, out, kd in sdcases:
+        if st != "ok":
+            continue
+        c["_A"] = R.driver.get("Da%d" % kd).mat()
+        for i, x in enumerate(c["X"]):
+            R.driver.ask("Ds%d_%d" % (kd, i), "syscap", ms(c["_A"]), vs(x))
     for c, st, out, X, kb in big:
         if st != "ok":
             continue
@@ -260,6 +408,15 @@ def run(R):
             R.driver.ask("r%d_%d" % (k, i), "relcap", K_text(c["K"]), vs(basev), vs(q))
         R.driver.ask("ks%d" % k, "adapt", int(c["add_baseline"]), vs(basev), vs(c["_qbx"]))
         R.driver.ask("kb%d" % k, "adapt", int(c["add_baseline"]), vs(basev), vs(c["_qbs"]))
+    for c, st, out, kd in sdcases:
+        if st != "ok":
+            continue
+        basev = np.atleast_1d(c["baseline"])
+        c["_Q"] = [R.driver.get("Ds%d_%d" % (kd, i)).vec() for i in range(len(c["X"]))]
+        c["_qbs"] = R.driver.get("Db%d" % kd).mat()[0]
+        for i, q in enumerate(c["_Q"]):
+            R.driver.ask("Dr%d_%d" % (kd, i), "relcap", K_text(c["K"]), vs(basev), vs(q))
+        R.driver.ask("Dk%d" % kd, "adapt", int(c["add_baseline"]), vs(basev), vs(c["_qbs"]))
     R.driver.run()
 
     for c, st, out in todo:
@@ -418,3 +575,80 @@ def run(R):
             seen.add(sig)
             extra = {} if row is None else dict(row=row, x=X[row], impl={n_: out[n_][row] for n_ in ("sc", "src", "cap_mix", "relcap_mix") if out[n_].ndim == 2 and out[n_].shape[0] > row})
             R.failB(dict(pub, impl_A=out["A"], **extra), what, sigt % sig)
+
+    # ---- spectra measured on their own grid: judge ------------------------------------------------------------------
+    for c, st, out, kd in sdcases:
+        pub = {kk: v for kk, v in c.items() if not kk.startswith("_")}
+        nf, ns, X = c["nf"], c["ns"], c["X"]
+        nontriv = None
+        if ns >= 2 and c["signal_domain_kind"] not in ("equal", "step-explicit"):
+            nontriv = (c["k"], c["filters"].tobytes(), c["sources"].tobytes(), c["signal_domain"].tobytes(), X.tobytes())
+        R.case(pub, nontriv, sample=(nontriv is not None and kd < 2))
+        sigt = "C02:signal-domain:%%s:K=%s:baseline=%s" % (c["K_kind"], c["baseline_kind"])
+        if st != "ok":
+            R.failB(dict(pub, impl_error=out), "estimator raised %s with spectra on their own grid (%s): %s" % (st, c["signal_domain_kind"], out), sigt % ("raises:" + st))
+            continue
+        bad, badA = [], []
+        nx = len(X)
+        shapes = dict(A=(nf, ns), sc=(nx, nf), src=(nx, nf), cap_mix=(nx, nf), relcap_mix=(nx, nf), cap_single=(ns, nf), q_bg=(nf,), rel_bg=(1, nf), K_bg=(nf,))
+        for name, shp in shapes.items():
+            if out[name].shape != shp:
+                bad.append((name + "-shape", "%s has shape %s, expected %s" % (name, out[name].shape, shp)))
+        if not bad:
+            Aimpl, sc, rel, cm, rm = out["A"], out["sc"], out["src"], out["cap_mix"], out["relcap_mix"]
+            scaleA = float(np.max(np.abs(Aimpl))) + 1e-300
+            scaleQ = float(max(np.max(np.abs(sc)), np.max(np.abs(cm)))) + scaleA
+            Kv = np.atleast_1d(np.asarray(c["K"], dtype=float)); bv = np.atleast_1d(np.asarray(c["baseline"], dtype=float))
+            Kabs = float(np.max(np.abs(Kv))); babs = float(np.max(np.abs(bv)))
+            scaleR = (scaleQ + babs) * Kabs * nf
+            # -- the property's clauses, on the implementation's own answers ------------------------------------------
+            # the capture predicted from the intensities equals the capture of the physically mixed spectrum (same grid as the sources)
+            d = np.abs(sc - cm)
+            if not np.all(d <= RT * scaleQ):
+                i, j = np.unravel_index(int(np.argmax(np.where(np.isfinite(d), d, np.inf))), d.shape)
+                bad.append(("mixture", "system_capture(x)[%d,%d]=%r but capture(sum_k x_k source_k, domain=grid)=%r (sources registered with the same domain=grid)"
+                            % (i, j, sc[i, j], cm[i, j])))
+            # the columns of A are the captures of the single sources
+            d = np.abs(Aimpl.T - out["cap_single"])
+            if not np.all(d <= RT * scaleA):
+                bad.append(("single-source", "A differs from capture(sources, domain=grid) by %r" % float(np.max(d))))
+            # relative capture = K (Q + baseline), Q the implementation's own absolute capture
+            for name, r_, q_ in (("relative", rel, sc), ("relative-mix", rm, cm)):
+                ref = (q_ + bv) * Kv if Kv.ndim == 1 else (q_ + bv) @ Kv.T
+                d = np.abs(r_ - ref)
+                if not np.all(d <= RT * scaleR):
+                    i, j = np.unravel_index(int(np.argmax(np.where(np.isfinite(d), d, np.inf))), d.shape)
+                    bad.append((name, "%s[%d,%d]=%r but K(Q+baseline) of the absolute capture %r is %r" % (name, i, j, r_[i, j], q_[i].tolist(), ref[i, j])))
+            # adapted to the background (baseline included): relative capture of that background is 1
+            if c["add_baseline"] and not np.allclose(out["rel_bg"].ravel(), 1.0, rtol=0, atol=1e-9):
+                bad.append(("adapt-one-bg", "relative capture of the adapting background (domain=grid) is %s, not 1" % out["rel_bg"].ravel().tolist()))
+            # -- correspondence with the exact model over the common grid ------------------------------------------------
+            A = c["_A"]; Q = c["_Q"]; Mix = R.driver.get("Dm%d" % kd).mat()
+            for j in range(nf):
+                for s_ in range(ns):
+                    if not close(Aimpl[j, s_], A[j][s_], scaleA, RT):
+                        badA.append("A[%d,%d]=%r, exact model over the common grid %s" % (j, s_, Aimpl[j, s_], rs(A[j][s_])))
+            for i in range(nx):
+                rr = R.driver.get("Dr%d_%d" % (kd, i)).vec()
+                for j in range(nf):
+                    if not close(sc[i, j], Q[i][j], scaleQ, RT):
+                        badA.append("system_capture[%d,%d]=%r, model %s" % (i, j, sc[i, j], rs(Q[i][j])))
+                    if not close(cm[i, j], Mix[i][j], scaleQ, RT):
+                        badA.append("capture(mixed spectrum, domain=grid)[%d,%d]=%r, model %s" % (i, j, cm[i, j], rs(Mix[i][j])))
+                    if not close(rel[i, j], rr[j], scaleR, RT) or not close(rm[i, j], rr[j], scaleR, RT):
+                        badA.append("relative captures [%d,%d] = %r / %r, model K(Q+baseline) = %s" % (i, j, rel[i, j], rm[i, j], rs(rr[j])))
+            km = R.driver.get("Dk%d" % kd).vec()
+            sK = float(np.max(np.abs(out["K_bg"]))) + 1e-300
+            for j in range(nf):
+                if not close(out["q_bg"][j], c["_qbs"][j], float(np.max(np.abs(out["q_bg"]))) + 1e-300, RT):
+                    badA.append("capture(background, domain=grid)[%d]=%r, model %s" % (j, out["q_bg"][j], rs(c["_qbs"][j])))
+                if not close(out["K_bg"][j], km[j], sK, RT):
+                    badA.append("K[%d]=%r after adapting to a background given with domain=grid, model %s" % (j, out["K_bg"][j], rs(km[j])))
+        seen = set()
+        for sig, what in bad:
+            if sig in seen:
+                continue
+            seen.add(sig)
+            R.failB(dict(pub, impl=dict(out)), what, sigt % sig)
+        if badA and not bad:
+            R.failA(dict(pub, impl=dict(out)), "spectra on their own grid (%s): %s" % (c["signal_domain_kind"], badA[0]))
